@@ -48,10 +48,12 @@ def load_baseline():
 def run_properties(props, args, seed, scratch, manifest):
     t_start = time.time()
     thorough = args.tier == "thorough"
-    timeout = 60 if thorough else 10
+    timeout = 120 if thorough else 10
     extra = []
     if args.fn:
         extra += ["-fn", args.fn]
+    if getattr(args, "split", False):
+        extra += ["-split"]
     out, log, gen_s = chk.run_vcgen(props, scratch, extra)
     if out is None:
         print(log)
@@ -61,6 +63,16 @@ def run_properties(props, args, seed, scratch, manifest):
             write_evidence(p, args.tier, seed, [], {}, [], time.time() - t_start, 1, out, gen_s)
         return 1
     obls = out["obligations"]
+    exceptions0 = load_exceptions()
+    def is_slow(o):
+        e = exception_for(o["name"], exceptions0)
+        return e is not None and e["kind"] == "slow"
+    if not thorough:
+        # obligations known to need more than the quick budget are proved in the thorough tier only
+        slow_skipped = [o["name"] for o in obls if is_slow(o)]
+        obls = [o for o in obls if not is_slow(o)]
+    else:
+        slow_skipped = []
     smt_obls = [o for o in obls if o["backend"] == "smt"]
     results = {}
     with cf.ThreadPoolExecutor(max_workers=int(os.environ.get("VERIF_JOBS", "12"))) as ex:
@@ -89,6 +101,8 @@ def run_properties(props, args, seed, scratch, manifest):
             if name.endswith("!carved"):
                 continue
             exc = exception_for(name, exceptions)
+            if exc is not None and exc["kind"] == "slow":
+                exc = None  # thorough tier: claimed like any other obligation
             if exc is not None:
                 ok = (o["backend"] == "static" and o.get("static") == "ok") or (o["backend"] == "smt" and results[name]["answer"] == ("sat" if o.get("cover") else "unsat"))
                 excepted.append({"obligation": name, "kind": exc["kind"], "reason": exc["reason"], "holds_anyway": bool(ok)})
@@ -147,7 +161,7 @@ def run_properties(props, args, seed, scratch, manifest):
             viol.append((o, r, "refuted" if r["answer"] == "sat" else "undecided (%s)" % r["answer"]))
         # baseline: obligations that disappeared
         for bn in baseline.get(p, []):
-            if bn not in all_names and not args.fn:
+            if bn not in all_names and not args.fn and bn not in slow_skipped:
                 total += 1
                 viol.append(({"name": bn, "kind": "baseline", "fn": bn.split("/")[0], "clause": "", "props": [p]}, None,
                              "obligation discharged on the unchanged tree no longer exists (contract binding lost?)"))
@@ -166,7 +180,7 @@ def run_properties(props, args, seed, scratch, manifest):
             rc = 1
         fns = [f for f in out["functions"] if p in (f.get("props") or [])]
         write_evidence(p, args.tier, seed, pobls, {"total": total, "discharged": discharged, "by_backend": by_backend,
-                       "solver_time": solver_time, "samples": samples, "undecided": undecided, "covers_undecided": covers_undecided, "excepted": excepted, "kf": kf_lines,
+                       "solver_time": solver_time, "samples": samples, "undecided": undecided, "covers_undecided": covers_undecided, "excepted": excepted, "slow_skipped": [n for n in slow_skipped if any(n == o["name"] for o in out["obligations"] if p in (o.get("props") or []))], "kf": kf_lines,
                        "violations": [(o["name"], why) for o, r, why in viol]},
                        fns, time.time() - t_start, nviol, out, gen_s)
         print("property %s: %d obligations, %d discharged, %d violations, %d known findings (%.1fs)" % (
@@ -255,6 +269,7 @@ def write_evidence(prop, tier, seed, pobls, st, fns, wall, nviol, out, gen_s):
         "undecided": st.get("undecided", []),
         "covers_undecided_not_counted": st.get("covers_undecided", []),
         "not_claimed": st.get("excepted", []),
+        "thorough_tier_only": st.get("slow_skipped", []),
         "known_findings_seen": st.get("kf", []),
         "violations": st.get("violations", []),
         "explanation": "every obligation is an SMT query (path condition and negated goal) generated from go/ssa of /repo's working tree; "
